@@ -152,7 +152,7 @@ def run_case(case, trace_lines=True):
             return pu.single_thread_prefetch(EagerlyFailing() if case.get('iter_fail') else gen(), b)
         if kind == 'lpm':
             return pu.lazy_parallel_map(fn, EagerlyFailing() if case.get('iter_fail') else source(),
-                                        buffer_size=b, max_workers=w, backend='t')
+                                        buffer_size=b, max_workers=w, backend=False if case.get('serial') else 't')
         vals = [srcval(i) for i in range(n)]
         if case.get('src') == 'dict' or case.get('with_key'):
             ds = lazy_dataset.new({key_of(i): v for i, v in enumerate(vals)})
@@ -329,7 +329,7 @@ def describe(tr):
     return (f"workload {c['kind']} n={c['n']} workers={c['workers']} buffer={c['buffer']} "
             f"with_key={c.get('with_key', False)} src_fail={c.get('src_fail', {})} fn_fail={c.get('fn_fail', {})} "
             f"catch={c.get('catch', False)} stop={c.get('stop')} pauses={c.get('pauses', [])} "
-            + ''.join(f'{k}={c[k]} ' for k in ('vk', 'batched', 'dual', 'copy', 'src', 'shuffled', 'epochs', 'src_none', 'iter_fail', 'nested_pool') if c.get(k) is not None and c.get(k) is not False) +
+            + ''.join(f'{k}={c[k]} ' for k in ('vk', 'batched', 'dual', 'copy', 'src', 'shuffled', 'epochs', 'src_none', 'iter_fail', 'nested_pool', 'serial') if c.get(k) is not None and c.get(k) is not False) +
             f"decisions={len(tr.sched.decisions)} preemptions={tr.sched.preemptions}")
 
 
@@ -551,6 +551,11 @@ def st_case(draw, profile):
         case['buffer'] = 0  # must be rejected (or, if accepted, still obey the bound)
     elif profile == 'readahead' and kind in ('pf', 'pm', 'lpm') and w >= 2 and draw(st.integers(0, 7)) == 0:
         case['buffer'] = w - 1  # fewer buffer slots than workers: rejected, or the bound of the REQUESTED size holds
+    if kind == 'lpm' and profile in ('readahead', 'plain', 'fault') and draw(st.integers(0, 5)) == 0:
+        # backend=False (no pool, everything in the consumer): any buffer size >= 1 is legal, also below max_workers
+        case['serial'] = True
+        if profile == 'readahead':
+            case['buffer'] = draw(st.integers(1, max(1, w)))
     if n >= 2 and draw(st.integers(0, 3)) > 0:
         # one slow task (many internal yield points): what makes later tasks finish before earlier ones
         case['slow'] = [draw(st.integers(0, n - 2)), draw(st.integers(8, 40))]
